@@ -162,11 +162,12 @@ class HitranCiaGrid(Logger):
             Master temperature grid
 
         """
+        tmin, tmax = min(self.temperature), max(self.temperature)
         for t in temperatures:
             if t in self.temperature:
                 continue
             self.debug('Tempurature %s, %s', t)
-            if t < min(self.temperature) or t > max(self.temperature):
+            if t < tmin or t > tmax:
                 self.add_temperature(t, np.zeros_like(self.wn))
             else:
                 indicies = self.find_closest_temperature_index(t)
